@@ -76,6 +76,10 @@ def grafts(backend: str, s) -> Dict[str, List[Tuple[str, Callable]]]:
     add("raw_object_compare", "bool", lambda g, env, J, E: f"({obj(g, env, J, E)} > 1)")
     if backend == "atlas":
         add("getAttribute", "num", lambda g, env, J, E: f"{obj(g, env, J, E)}.getAttribute('emf')")
+        # ... on receivers that are expressions when the plug-ins are resolved (an indexed collection, a member call's result)
+        add("getAttribute_on_indexed_receiver", "num", lambda g, env, J, E: (f"{E}.{coll}('A')[0].getAttribute('emf')" if E else f"{J}.tracks()[0].getAttribute('emf')"))
+        add("getAttribute_on_member_result", "num", lambda g, env, J, E: (f"{E}.{coll}('A').First().other().getAttribute('emf')" if E else f"{J}.other().getAttribute('emf')"))
+        add("getAttributeFloat_2args_on_indexed_receiver", "num", lambda g, env, J, E: (f"{E}.{coll}('A')[0].getAttributeFloat('emf', 'x')" if E else f"{J}.tracks()[0].getAttributeFloat('emf', 'x')"))
         add("getAttributeFloat_2args", "num", lambda g, env, J, E: f"{obj(g, env, J, E)}.getAttributeFloat('emf', 'x')")
         add("getAttributeFloat_func_style", "num", lambda g, env, J, E: f"getAttributeFloat({obj(g, env, J, E)}, 'emf')")
     add("kw_method", "num", lambda g, env, J, E: f"{obj(g, env, J, E)}.pt(units=1000)")
@@ -219,6 +223,11 @@ def metadata_cases(backend: str, s) -> List[Tuple[str, str]]:
     # metadata deep in the chain / after other valid metadata
     out.append(("md_unknown_after_valid", f"Select(MetaData(MetaData(ds, {{'metadata_type': 'inject_code', 'name': 'ok', 'body_includes': ['a.h']}}), {{'metadata_type': 'bogus'}}), lambda e: e.{c}('A').Count())"))
     out.append(("md_unknown_on_outer", f"MetaData(Select(ds, lambda e: e.{c}('A').Count()), {{'metadata_type': 'bogus'}})"))
+    if backend == "atlas":
+        # the templated getAttribute on an object handed over by an earlier step (an expression receiver once the steps are fused)
+        out.append(("getAttribute_after_handover", "Select(Select(ds, lambda e: e.Jets('A').First()), lambda j: j.getAttribute('emf'))"))
+        out.append(("getAttribute_after_handover_in_tuple", "Select(Select(ds, lambda e: (e.Jets('A').First(), e.Jets('B').Count())), lambda t: (t[0].getAttribute('emf'), t[1]))"))
+        out.append(("getAttribute_on_member_result", "Select(ds, lambda e: e.TruthParticles('TP').Select(lambda p: p.parent(0).getAttribute('x')))"))
     return out
 
 
